@@ -116,7 +116,7 @@ def mc_scenario(draw):
     if not scn["atoms"]["constraints"]:
         if draw(st.booleans()):
             idx = draw(st.lists(st.integers(0, n - 1), min_size=1, max_size=n - 1, unique=True))
-            scn["atoms"]["constraints"] = [{"kind": "FixAtoms", "indices": sorted(idx)}]
+            scn["atoms"]["constraints"] = [{"kind": "FixAtoms", "indices": sorted(idx), "split": draw(st.integers(0, len(idx)))}]
         else:
             scn["atoms"]["constraints"] = [{"kind": "FixCom"}]
     return scn
